@@ -48,7 +48,7 @@ pub fn leaf_cv(code: u64, dom: u64, depth: u32) -> CV {
     let mut r = SimRng::new(code ^ 0x1eaf);
     let dom = if dom == 0 { DOM_ALL } else { dom };
     // pick an enabled kind
-    let kinds: Vec<u64> = (0..15).filter(|k| dom & (1 << k) != 0).collect();
+    let kinds: Vec<u64> = (0..16).filter(|k| dom & (1 << k) != 0).collect();
     let kind = if kinds.is_empty() { 0 } else { kinds[r.below(kinds.len() as u64) as usize] };
     match kind {
         0 => CV::U(r.below(1000)),
@@ -110,6 +110,19 @@ pub fn leaf_cv(code: u64, dom: u64, depth: u32) -> CV {
             // long incompressible bytes
             let n = r.range(64, 300);
             CV::B(r.bytes(n as usize))
+        }
+        15 => {
+            // a tag the library itself gives a meaning to (known value, digest, encrypted, compressed, function,
+            // parameter, salt, ...), here as plain leaf content: fitting and unfitting payloads
+            let t = *r.pick(&[40000u64, 40000, 40001, 40002, 40003, 40006, 40007, 40018, 40004, 40005, 40026, 40309, 37, 32]);
+            let inner = match r.below(5) {
+                0 => CV::U(r.below(40)),
+                1 => CV::U(*r.pick(BOUNDARY_U)),
+                2 => CV::B(r.bytes(32)),
+                3 => CV::T(ascii_word(&mut r, 0, 6)),
+                _ => CV::A(vec![CV::B(r.bytes(12)), CV::U(r.below(5))]),
+            };
+            CV::tag(t, inner)
         }
         _ => {
             // an embedded envelope as a leaf value (#6.200 inside the leaf)
